@@ -21,6 +21,7 @@ import (
 	"fmt"
 	"math/rand"
 	"os"
+	"os/exec"
 	"path/filepath"
 	"sort"
 	"strings"
@@ -191,6 +192,56 @@ func (d *dsm) viaFifo(a *arch.Info, content []byte) ([]disasm.Syscall, error, in
 	w.Close() // a reader that went away early leaves the writer blocked on a full pipe
 	<-done
 	return res, rerr, pan
+}
+
+// childDisasmMain: `vdiff -childdisasm <arch>:<path>` — the extraction alone, in a process of its own, so that a tracer
+// can make one of its read(2) calls on the listing fail.
+func childDisasmMain(arg string) {
+	i := strings.Index(arg, ":")
+	if i < 0 {
+		os.Exit(2)
+	}
+	dn, _ := os.OpenFile(os.DevNull, os.O_WRONLY, 0)
+	d := &dsm{devnull: dn}
+	res, err, pan := d.real(disArch(arg[:i]), arg[i+1:])
+	fmt.Println(renderDis(res, err, pan))
+}
+
+// viaInjectedReadError runs the extraction in a child under strace, which makes the k-th read(2) on the listing fail
+// with EIO ("read failures at every point": the first chunks were delivered, a line is usually pending).  It reports
+// injected = false when the tracer is missing or the k-th read never happened (then nothing was tested).
+func (d *dsm) viaInjectedReadError(archName string, content []byte, k int) (reply string, injected bool, problem string) {
+	strace, err := exec.LookPath("strace")
+	if err != nil {
+		return "", false, ""
+	}
+	if err := os.WriteFile(d.file, content, 0o644); err != nil {
+		return "", false, "harness: " + err.Error()
+	}
+	self, _ := os.Executable()
+	trace := filepath.Join(d.dir, "strace.out")
+	os.Remove(trace)
+	cmd := exec.Command(strace, "-f", "-qq", "-o", trace, "-P", d.file, "-e", "trace=read", "-e", fmt.Sprintf("inject=read:error=EIO:when=%d", k),
+		self, "-childdisasm", archName+":"+d.file)
+	var out bytes.Buffer
+	cmd.Stdout = &out
+	done := make(chan error, 1)
+	if err := cmd.Start(); err != nil {
+		return "", false, ""
+	}
+	go func() { done <- cmd.Wait() }()
+	select {
+	case <-done:
+	case <-time.After(60 * time.Second):
+		cmd.Process.Kill()
+		<-done
+		return "", false, "harness: traced extraction did not finish within 60 s"
+	}
+	tr, _ := os.ReadFile(trace)
+	if !bytes.Contains(tr, []byte("(INJECTED)")) {
+		return "", false, ""
+	}
+	return strings.TrimSpace(out.String()), true, ""
 }
 
 func hexOrDash(b []byte) string {
@@ -784,6 +835,15 @@ func (g *disGen) textLine() string {
 	}
 	g.line = 1 + g.rng.Intn(900)
 	switch k := g.rng.Intn(40); {
+	case k < 3:
+		// a well-formed marker whose symbol carries decorations: flags and a frame size as in assembler sources,
+		// an ABI suffix, a comment, a $ or a comma somewhere — still a function boundary
+		g.tag("marker:decorated-symbol")
+		sym, rest := name, ""
+		if i := strings.Index(name, " "); i >= 0 {
+			sym, rest = name[:i], name[i:]
+		}
+		return "TEXT " + sym + []string{",NOSPLIT,$0-8", ",NOSPLIT|NOFRAME,$0", ", $16-24", "<ABIInternal>", ",$0x0", " // $0", ",4,$8-16", ".abi0,$0"}[g.rng.Intn(8)] + rest
 	case k < 33:
 		return "TEXT " + name
 	case k < 34:
@@ -1139,6 +1199,41 @@ func (r *runner) disasmStream(rng *rand.Rand) error {
 			}
 			lines = append(lines[:pos:pos], append([]string{ll}, lines[pos:]...)...)
 			emit(id, &disCase{arch: archName, fail: "-", content: joinLines(rng, lines, g.tags), tags: tagList(g.tags), nontriv: true}, 2)
+		case k < 88 && done%2 == 0:
+			// the k-th read(2) on a long listing fails (k = 2, 3: the chunks before it were delivered)
+			g.tag("family:read-fails-midway")
+			lines := g.listing(40, 3, 30)
+			for len(strings.Join(lines, "\n")) < 300000 {
+				lines = append(lines, g.listing(40, 3, 30)...)
+			}
+			content := joinLines(rng, lines, g.tags)
+			kth := 2 + rng.Intn(2)
+			done++
+			reply, injected, problem := d.viaInjectedReadError(archName, content, kth)
+			switch {
+			case problem != "":
+				r.sum.Error = problem
+				stop = true
+			case !injected:
+				r.tag("read-fault:not-injected")
+			default:
+				r.sum.Evaluations++
+				r.tag(fmt.Sprintf("read-fault:EIO-at-read-%d", kth))
+				r.tag("read-fault/" + strings.SplitN(reply, " ", 2)[0])
+				if reply != "ERR" {
+					req := (&disCase{arch: archName, fail: fmt.Sprintf("inject:%d", kth), content: content}).request()
+					m := Mismatch{Case: id, Request: shortReq(req), Go: shortReq(reply), Model: "ERR",
+						Note: fmt.Sprintf("read(2) number %d on the listing (%d bytes) was made to fail with EIO (strace fault injection); the model says ERR for a read failure at any point; the listing is case %s of: vdiff -stream disasm -profile %s -seed %d -n %d", kth, len(content), id, *profile, *seed, done)}
+					if strings.HasPrefix(reply, "OK") {
+						m.FailingInput = fmt.Sprintf("a listing of %d bytes whose read(2) number %d fails with EIO: extraction returns a result (%s) and no error", len(content), kth, shortReq(reply))
+					} else if reply == "PANIC" {
+						m.FailingInput = fmt.Sprintf("a listing of %d bytes whose read(2) number %d fails with EIO: extraction panics", len(content), kth)
+					}
+					if r.mismatch(m) {
+						stop = true
+					}
+				}
+			}
 		case k < 89:
 			g.tag("family:unreadable")
 			lines := g.listing(2, 2, 0)
